@@ -15,11 +15,12 @@ Variable over1 over2 : Z -> V -> V.
 Variable has_prot : Z -> bool.
 Variable mf : Z -> V.
 Variable sf : Z -> V.
+Variable pre : bool.
 Variable reqs : Z -> req.
 
 Notation step := (step V base over1 over2 has_prot mf sf).
 Notation run := (run V base over1 over2 has_prot mf sf).
-Notation init := (init V base).
+Notation init := (init V base pre).
 Notation alone := (alone V base over1 over2 has_prot mf sf).
 Notation tstate := (tstate V).
 
@@ -128,7 +129,7 @@ Definition bound (q : req) : Z :=
 
 Lemma measure_init : forall v t, measure (thr (init v reqs) t) <= bound (reqs t).
 Proof.
-  intros v t. cbn [init thr]. destruct (reqs t) as [| |ok e|e|ks|ks|ks]; destruct v;
+  intros v t. cbn [Model.init thr]. destruct (reqs t) as [| |ok e|e|ks|ks|ks]; destruct v;
     try destruct ks as [|k0 ks];
     cbn [tinit measure tpc todo rank bound]; change (@length Z []) with 0%nat; lia.
 Qed.
@@ -150,10 +151,10 @@ Lemma quiescent_all_served : forall sched s,
   forall t, tpc (thr s t) = Done /\ out (thr s t) = alone (reqs t).
 Proof.
   intros sched s H Hq t.
-  assert (Hr : reach V base over1 over2 has_prot mf sf reqs s) by (now exists sched).
+  assert (Hr : reach V base over1 over2 has_prot mf sf pre reqs s) by (now exists sched).
   destruct (pc_done_dec (tpc (thr s t))) as [Hd|Hn].
-  - split; auto. apply (no_interference V base over1 over2 has_prot mf sf reqs); auto.
-  - destruct (no_deadlock V base over1 over2 has_prot mf sf reqs s t Hr Hn) as [u Hu].
+  - split; auto. apply (no_interference V base over1 over2 has_prot mf sf pre reqs); auto.
+  - destruct (no_deadlock V base over1 over2 has_prot mf sf pre reqs s t Hr Hn) as [u Hu].
     rewrite Hq in Hu. congruence.
 Qed.
 
